@@ -155,6 +155,10 @@ class Gen:
                 scomps = list(comps) if r.random() < 0.6 else sorted(r.sample(comps, r.randint(1, ncomp)), key=comps.index)
             if name in used:
                 continue
+            if want.get("shuffle_comps") and kind == "plain" and len(scomps) > 1 and r.random() < want["shuffle_comps"]:
+                # the stratification lists its compartments in another order than the model
+                scomps = list(scomps)
+                r.shuffle(scomps)
             o = {"op": "strat", "kind": kind, "name": name, "strata": strata, "comps": scomps}
             # split
             c = r.random()
@@ -172,6 +176,9 @@ class Gen:
             elif c < 0.6:
                 # parameterised split (not validated by the API)
                 o["split"] = {s: ({"p": "kappa"} if i == 0 else frac(r)) for i, s in enumerate(strata)}
+            if want.get("rounded_splits") and len(strata) in (2, 3) and r.random() < want["rounded_splits"]:
+                # literal splits rounded to three digits: accepted (within 1e-2 of one) and used as given
+                o["split"] = dict(zip(strata, ["333/1000"] * 3 if len(strata) == 3 else ["499/1000", "1/2"]))
             # dictionaries need not be written in the order of the strata
             if o.get("split") and r.random() < 0.5:
                 items = list(o["split"].items())
